@@ -18,7 +18,7 @@ KNOWN_FILE = os.path.join(ROOT, "known_findings.json")
 
 class Entry:
     def __init__(self, name, fmode="real", imode="int", params=None, cap=None, budget=None, ad=(),
-                 ub_checks=False, note="", concretize_fptoi=False, shard=None, lockmon=None, expect_reach=True, kinds=None, setup=None):
+                 ub_checks=False, note="", concretize_fptoi=False, shard=None, summarize_loops=False, lockmon=None, expect_reach=True, kinds=None, setup=None):
         self.name = name
         self.fmode = fmode
         self.imode = imode
@@ -29,6 +29,7 @@ class Entry:
         self.ub_checks = ub_checks
         self.concretize_fptoi = concretize_fptoi
         self.shard = shard
+        self.summarize_loops = summarize_loops
         self.note = note
         self.lockmon = lockmon
         self.expect_reach = expect_reach
@@ -168,6 +169,7 @@ class Runner:
         eng.ub_checks = ent.ub_checks
         eng.concretize_fptoi = ent.concretize_fptoi
         eng.shard = ent.shard
+        eng.summarize_loops = ent.summarize_loops
         if ent.lockmon:
             eng.lockmon = ent.lockmon()
         if ent.setup:
